@@ -13,7 +13,7 @@ RULE = ('generated float models (1-3 signatures) and their quantized versions un
         'dequantisation, own metric, mean over samples) -- every declared common tensor exactly once, in the right group, with the right '
         'value; model vs. itself must report 0; metric axioms on random arrays incl. NaN/inf.  A unit is one (model pair, metric, '
         'signature); distinct by digest; non-trivial iff the target model contains >=1 quantized tensor')
-ASSUMPTIONS = ['16-bit activation recipes excluded (their interpreter aborts are C01/C13 findings)', '"tensor of the model" = tensor declared in the flatbuffer subgraph; interpreter scratch tensors are only checked for "filed at most once"',
+ASSUMPTIONS = ['dynamic-range TENSORWISE rules excluded and non-reproducible tensors skipped: the DEPTHWISE_CONV_2D kernel of KF-DWCONV-DRQ-TENSORWISE returns different values per interpreter instance', '16-bit activation recipes excluded (their interpreter aborts are C01/C13 findings)', '"tensor of the model" = tensor declared in the flatbuffer subgraph; interpreter scratch tensors are only checked for "filed at most once"',
                'test inputs of quantized model inputs are on the quantization grid with |q| <= 127',
                'value tolerance rel 1e-4 + abs 1e-9']
 TT = models.TT
@@ -144,6 +144,17 @@ def check_result(ctx, res, ref_model, ref_content, tgt_content, sig, ds, metric,
     if expect_zero and val != 0:
       ctx.violation('self_comparison_nonzero', f, dict(base, tensor=n, value=val))
     if abs(val - want) > 1e-4 * abs(want) + 1e-9:
+      # is the tensor reproducible at all?  (a kernel reading uninitialised memory gives different values per interpreter instance)
+      again = []
+      for x in ds:
+        a2 = own_tensors(ref_content, sig['key'], x)
+        b2 = own_tensors(tgt_content, sig['key'], x)
+        if n in a2 and n in b2 and a2[n].size == b2[n].size:
+          again.append(OWN[metric](b2[n], a2[n]))
+      want2 = float(np.mean(again)) if again else want
+      if abs(want2 - want) > 1e-6 * abs(want) + 1e-12:
+        ctx.count('nonreproducible_tensor_skipped')
+        continue
       ctx.violation('value_differs_from_own_metric', dict(f, group=grp_want), dict(base, tensor=n, reported=val, own=want))
 
 
@@ -199,7 +210,7 @@ def run_case(ctx, case, rng):
     name = ship[(case // 3) % len(ship)]
     rules = recipes.SHIPPED_AS_RULES[name]
   else:
-    pool = [c for c in recipes.GOOD if not c.startswith('srq16')]
+    pool = [c for c in recipes.GOOD if not c.startswith('srq16') and c != 'drq8_tw']
     rules = recipes.random_rules(rng, src, safe_regex=True, cfg_pool=pool)
   run = common.pipeline(spec, datasets, rules=rules)
   if run.phase == 'no_rule_accepted' or run.exc is not None:
